@@ -220,9 +220,11 @@ impl Outcome {
 }
 
 fn enc_err(e: ParseError) -> Outcome {
+    // the error as the caller sees it: variant, message, and what `Display` and `Debug` make of it
+    let shown = format!(" | display: {} | debug: {:?}", e, e);
     match e {
-        ParseError::UnableToParse(m) => Outcome::Err("UnableToParse".into(), m),
-        ParseError::InvalidOperator(m) => Outcome::Err("InvalidOperator".into(), m),
+        ParseError::UnableToParse(m) => Outcome::Err("UnableToParse".into(), m + &shown),
+        ParseError::InvalidOperator(m) => Outcome::Err("InvalidOperator".into(), m + &shown),
     }
 }
 
